@@ -562,6 +562,35 @@ func (w *Walker) calleePathEnvs(fr *Frame, cf CallFact) []map[string]bool {
 		if !complete {
 			return nil
 		}
+		// the atoms as values: a decided atom computed over an enumeration / bit set by
+		// further helpers implies what is common to its alternatives (constalts.go)
+		atomOf := map[string]ssa.Value{}
+		for _, b := range g.Blocks {
+			for _, ins := range b.Instrs {
+				var c ssa.Value
+				switch x := ins.(type) {
+				case *ssa.If:
+					c = x.Cond
+				case *ssa.Return:
+					if len(x.Results) == 1 {
+						c = x.Results[0]
+					}
+				case *ssa.Phi:
+					for _, e := range x.Edges {
+						if _, isC := e.(*ssa.Const); !isC && isBoolType(e.Type()) {
+							for _, f := range expandCond(e, true, nil) {
+								atomOf[nameOf(f.Cond)] = f.Cond
+							}
+						}
+					}
+				}
+				if c != nil && isBoolType(c.Type()) {
+					for _, f := range expandCond(c, true, nil) {
+						atomOf[nameOf(f.Cond)] = f.Cond
+					}
+				}
+			}
+		}
 		for _, e := range envs {
 			m := map[string]bool{}
 			for k, v := range e {
@@ -569,6 +598,15 @@ func (w *Walker) calleePathEnvs(fr *Frame, cf CallFact) []map[string]bool {
 				for _, ft := range withEquivalents([]FactT{{Text: k, Holds: v}}) {
 					if _, has := m[ft.Text]; !has {
 						m[ft.Text] = ft.Holds
+					}
+				}
+			}
+			for k, v := range e {
+				if av, ok := atomOf[k]; ok {
+					for _, ft := range w.condAltFacts(nfr, av, v) {
+						if _, has := m[ft.Text]; !has {
+							m[ft.Text] = ft.Holds
+						}
 					}
 				}
 			}
